@@ -21,6 +21,8 @@ pub struct Stats {
     pub frozen: bool,
     /// set by the engine during enumeration (E1): checks use the light battery there
     pub light: bool,
+    want_sample: bool,
+    big_sample: Option<serde_json::Value>,
 }
 
 pub fn hash64<T: Hash>(t: &T) -> u64 {
@@ -58,11 +60,30 @@ impl Stats {
             self.nontrivial_seen += 1;
             let fresh = self.nontrivial.insert(hash64(case));
             let k = self.nontrivial_seen;
-            if fresh && (k == 1 || k == 10 || k == 100 || k == 1000 || k == 10000) && self.samples.len() < 5 {
+            // deterministic sampling; very large cases (e.g. 65 539-bit operands) are kept only as a
+            // fallback so that the samples in the evidence stay readable
+            if fresh && self.samples.len() < 5 && (self.want_sample || k == 1 || k == 10 || k == 100 || k == 1000 || k == 10000) {
                 if let Ok(v) = serde_json::to_value(case) {
-                    self.samples.push(v);
+                    if v.to_string().len() <= 1500 {
+                        self.samples.push(v);
+                        self.want_sample = false;
+                    } else {
+                        if self.big_sample.is_none() {
+                            self.big_sample = Some(v);
+                        }
+                        self.want_sample = true;
+                    }
                 }
             }
+        }
+    }
+
+    /// Samples for the evidence: the readable ones, or the first large one if there is nothing else.
+    pub fn samples_for_evidence(&self) -> Vec<serde_json::Value> {
+        if self.samples.is_empty() {
+            self.big_sample.iter().cloned().collect()
+        } else {
+            self.samples.clone()
         }
     }
 
@@ -84,6 +105,9 @@ impl Stats {
             if self.samples.len() < 6 {
                 self.samples.push(s);
             }
+        }
+        if self.big_sample.is_none() {
+            self.big_sample = other.big_sample;
         }
     }
 }
